@@ -2,29 +2,37 @@ use vstd::prelude::*;
 use std::collections::{HashMap, HashSet};
 use vstd::std_specs::iter::IteratorSpec;
 verus! {
-fn hm(m: &HashMap<u64, u64>) -> (c: bool)
-    ensures c <==> exists|k: u64| m@.contains_key(k) && #[trigger] m@[k] == 7
+#[verifier::loop_isolation(false)]
+fn all7(m: &HashMap<u64, u64>) -> (c: bool)
+    ensures c <==> forall|k: u64| m@.contains_key(k) ==> #[trigger] m@[k] == 7
 {
-    let mut c = false;
-    for (k, v) in it: m.iter()
-        invariant 
-          it.history@ + it.iter.remaining() == it.snapshot@.remaining(),
-          c <==> exists|i: int| 0 <= i < it.history@.len() && *(#[trigger] it.history@[i]).1 == 7,
+    let mut bad = false;
+    let iter0 = m.iter();
+    let ghost all = iter0.remaining();
+    let ghost mut n: int = 0;
+    for (k, v) in it: iter0
+        invariant
+          it.snapshot@.remaining() == all,
+          0 <= it.index@ <= all.len(), n == it.index@,
+          bad <==> exists|i: int| 0 <= i < it.index@ && *(#[trigger] all[i]).1 != 7,
     {
-        if *v == 7 { c = true; }
+        assert(all[it.index@] == (k, v));
+        if *v != 7 { bad = true; }
+        proof { n = n + 1; }
     }
+    assert(n == all.len());
     proof {
-        let s = it_done(m);
+        if !bad {
+            assert forall|k: u64| m@.contains_key(k) implies #[trigger] m@[k] == 7 by {
+                let i = choose|i: int| 0 <= i < all.len() && *(#[trigger] all[i]).0 == k;
+                assert(*all[i].1 == m@[k]);
+            }
+        } else {
+            let i = choose|i: int| 0 <= i < n && *(#[trigger] all[i]).1 != 7;
+            assert(m@.contains_key(*all[i].0) && m@[*all[i].0] == *all[i].1);
+        }
     }
-    c
-}
-proof fn it_done(m: &HashMap<u64,u64>) -> bool { true }
-
-fn hm3(m: &HashMap<u64, u64>) {
-    let it = m.iter();
-    assert(it.remaining().len() == m@.len());
-    assert(it.remaining().no_duplicates());
-    assert(forall|i: int| 0 <= i < it.remaining().len() ==> m@.contains_key(*(#[trigger] it.remaining()[i]).0) && m@[*it.remaining()[i].0] == *it.remaining()[i].1);
+    !bad
 }
 } // verus!
 fn main() {}
